@@ -16,7 +16,15 @@ Record lcase := {
   (* send_broadcast: languages the localization has entries for (sorted, as the code ranges them) and the
      translations of the broadcast_created event sorted by language: (language, text, attachments, quick replies) *)
   k_loc_langs : list lang;
-  k_o_bcast : list (lang * (text * (list text * list text)))
+  k_o_bcast : list (lang * (text * (list text * list text)));
+  (* send_email (same flow), say_msg and play_audio (a voice flow run for the same contact and environment):
+     base values, translations, and what was observed (None = the action was skipped with an error event) *)
+  k_audio : text;                                   (* say_msg's base audio URL ("" = none) *)
+  k_tr_subject : translations; k_tr_body : translations;
+  k_tr_say_text : translations; k_tr_say_audio : translations; k_tr_play_audio : translations;
+  k_o_email : option (text * text);
+  k_o_say : option (text * (text * lang));
+  k_o_play : option (text * (text * lang))
 }.
 
 Fixpoint texts_eqb (a b : list text) : bool :=
@@ -44,7 +52,28 @@ Fixpoint bcast_eqb (a b : list (lang * (text * (list text * list text)))) : bool
   | _, _ => false
   end.
 
+Definition ivr_view (o : option ivr_out) : option (text * (text * lang)) :=
+  match o with None => None | Some i => Some (i_text i, (i_audio i, i_lang i)) end.
+Definition ivr_eqb (a b : option (text * (text * lang))) : bool :=
+  match a, b with
+  | None, None => true
+  | Some (t, (u, l)), Some (t', (u', l')) => text_eqb t t' && text_eqb u u' && N.eqb l l'
+  | _, _ => false
+  end.
+Definition email_eqb (a b : option (text * text)) : bool :=
+  match a, b with
+  | None, None => true
+  | Some (s, b0), Some (s', b') => text_eqb s s' && text_eqb b0 b'
+  | _, _ => false
+  end.
+
 Definition base_lang : lang := 1.
+(* the fixed base values of the harness's flows: "subj", "body", "say", "http://x.io/play.mp3" *)
+Definition subj : text := [115; 117; 98; 106].
+Definition body : text := [98; 111; 100; 121].
+Definition say : text := [115; 97; 121].
+Definition play_url : text :=
+  [104; 116; 116; 112; 58; 47; 47; 120; 46; 105; 111; 47; 112; 108; 97; 121; 46; 109; 112; 51].
 Definition range_1_10 : list text := [[49]; [49; 48]].
 Definition cat : text := [67; 97; 116].
 
@@ -63,7 +92,13 @@ Definition check (k : lcase) : bool :=
   && texts_eqb (o_qrs o) (k_o_qrs k) && N.eqb (o_lang o) (k_o_lang k)
   && text_eqb sr (k_o_setres k) && Bool.eqb matched (k_o_matched k)
   && (negb matched || text_eqb catl (k_o_catl k))
-  && bcast_eqb (bcast_view bc) (k_o_bcast k).
+  && bcast_eqb (bcast_view bc) (k_o_bcast k)
+  && email_eqb (send_email_texts (k_clang k) (k_allowed k) base_lang subj body (k_tr_subject k) (k_tr_body k))
+               (k_o_email k)
+  && ivr_eqb (ivr_view (say_msg_out (k_clang k) (k_allowed k) base_lang say (k_audio k)
+                                    (k_tr_say_text k) (k_tr_say_audio k))) (k_o_say k)
+  && ivr_eqb (ivr_view (play_audio_out (k_clang k) (k_allowed k) base_lang play_url (k_tr_play_audio k)))
+             (k_o_play k).
 
 (* indices of the cases on which model and implementation differ *)
 Fixpoint mismatches_from (i : N) (ks : list lcase) : list N :=
